@@ -178,6 +178,37 @@ func cTCP(ctx *Ctx, prop string) {
 	cTCPInto(ctx, prop, 0, 0)
 	if prop == "C15" {
 		tcpFailingTarget(ctx)
+		tcpResettingTarget(ctx)
+	}
+}
+
+// tcpResettingTarget: the client uploads and half-closes, the target reads all of it, replies and
+// then resets its connection: only the target-to-client direction fails, and the one status of the
+// Closed report must say so (monitor-only: a reset is not an input of the model).
+func tcpResettingTarget(ctx *Ctx) {
+	r := ctx.Rng.Fork()
+	n := 10
+	if ctx.Thorough() {
+		n = 100
+	}
+	for i := 0; i < n; i++ {
+		cfg := genCfg(r, 2, 4)
+		pick := cfg[r.Intn(len(cfg))]
+		sp := tcpConnSpec{Kind: "honest", ConnectOK: true, Fin: true, Seed: uint32(r.U64()), C: pick.C, S: pick.S,
+			Chunks:   [][2]int{{[]int{1, 100, 5000}[r.Intn(3)], int(r.U64() % 1000000)}},
+			Coalesce: r.Bool(), TOut: [2]int{[]int{0, 10, 1000, 20000}[r.Intn(4)], int(r.U64() % 1000000)}, TReset: true}
+		sp.Key = fmt.Sprintf("%d/%d", sp.C, sp.S)
+		cs := tcpCaseSpec{Cfg: cfg, Cap: 0, Conns: []tcpConnSpec{sp}}
+		obs := runTCPCase(&cs)
+		ctx.Count("resetting-target:runs")
+		if len(obs) != 1 {
+			continue
+		}
+		ob := &obs[0]
+		ctx.Count("resetting-target:status:" + ob.Status)
+		if ob.Status != "ERR_RELAY_TARGET" {
+			ctx.Monitor("C15/status-hides-target-error", fmt.Sprintf("the target reset its connection after replying (the upload had completed); the connection was reported closed with %s", ob.Status), map[string]interface{}{"case": cs, "obs": ob})
+		}
 	}
 }
 
